@@ -606,6 +606,60 @@ pub fn run(ctx: &Ctx) -> i32 {
         ctx.eval(o.requests as usize);
         ctx.nontrivial_many((0..o.requests.min(4)).map(|i| (ri as u64) << 32 | i | 1 << 62));
     }
+    // very large block sizes (plans of more than a million operations), sequentially, in the shard that ran
+    // stress: the request must be transparent and must leave the cache consistent and within its capacity,
+    // also after 70 further sizes have pushed it out again
+    let mut big_probes = 0u64;
+    if !small && ran_stress {
+        vc::clear();
+        vc::set_hook(None);
+        for &kbig in &[34_000u16, 56_403] {
+            let r = guarded(|| {
+                let e = request(kbig);
+                let p = SourceBlockEncodingPlan::generate(kbig);
+                let want = SourceBlockEncoder::with_encoding_plan(0, &cfg1(), &data_for(kbig), &p);
+                let same = e == want && e.repair_packets(3, 4) == want.repair_packets(3, 4);
+                let hit = request(kbig) == want;
+                (same, hit)
+            });
+            big_probes += 1;
+            match r {
+                Err(m) => ctx.violation(format!("C17 big-size panic {kbig}"), format!("SourceBlockEncoder::new for {kbig} symbols panicked: {}", short(&m, 120)), J::obj(vec![("kind", J::s("big")), ("K", J::i(kbig))])),
+                Ok((same, hit)) => {
+                    if !same || !hit {
+                        ctx.violation(format!("C17 big-size transparency {kbig}"), format!("an encoder for {kbig} symbols built through the cache (first request: equal = {same}; second request: equal = {hit}) differs from the one built from a freshly generated plan"), J::obj(vec![("kind", J::s("big")), ("K", J::i(kbig))]));
+                    }
+                }
+            }
+            if let Err(e) = check_snapshot(&refs, &format!("after a request for {kbig} symbols")) {
+                ctx.violation(format!("C17 big-size snapshot {kbig} {}", short(&e, 60)), e, J::obj(vec![("kind", J::s("big")), ("K", J::i(kbig))]));
+            }
+            for k in 0..70u16 {
+                let _ = guarded(|| request(400 + k));
+                if let Err(e) = check_snapshot(&refs, &format!("after {} further sizes following a request for {kbig} symbols", k + 1)) {
+                    ctx.violation(format!("C17 big-size snapshot-after {kbig} {}", short(&e, 60)), e, J::obj(vec![("kind", J::s("big")), ("K", J::i(kbig))]));
+                    break;
+                }
+            }
+        }
+    }
+    // a request the library must refuse (more symbols than a block can have) must not disturb later valid
+    // requests from any thread
+    if !small && ran_stress {
+        let refused = guarded(|| request(60_000)).is_err();
+        let later = guarded(|| {
+            std::thread::scope(|s| s.spawn(|| check_transparent(&refs, 12, &request(12))).join())
+        });
+        big_probes += 1;
+        let ok = matches!(&later, Ok(Ok(Ok(()))));
+        if !ok {
+            ctx.violation("C17 after-refused-request".to_string(), format!("after SourceBlockEncoder::new for 60000 symbols (refused: {refused}), a valid request for 12 symbols from another thread no longer yields the uncached encoder: {:?}", later.map(|r| r.map_err(|_| "thread panicked")).map_err(|m| short(&m, 120))), J::obj(vec![("kind", J::s("big")), ("K", J::i(60000))]));
+        }
+        if let Err(e) = guarded(|| check_snapshot(&refs, "after a refused oversized request")).unwrap_or_else(|m| Err(format!("snapshot panicked: {}", short(&m, 100)))) {
+            ctx.violation(format!("C17 after-refused-request snapshot {}", short(&e, 60)), e, J::obj(vec![("kind", J::s("big")), ("K", J::i(60000))]));
+        }
+    }
+    ctx.cov("very_large_block_sizes_probed_(34000,_56403)_and_refused_oversized_request", J::i(big_probes));
     ctx.cov("stress_wall_s", J::F(t_b.elapsed().as_secs_f64()));
     let ev = raptorq::verif::events::read();
     ctx.cov("stress_requests_checked_for_transparency", J::i(tot.requests));
@@ -627,7 +681,7 @@ pub fn run(ctx: &Ctx) -> i32 {
     ctx.sample(|| J::obj(vec![("kind", J::s("stress")), ("threads", J::i(16)), ("sizes", J::s("8 / 70 / 300 distinct")), ("delays", J::s("0-200 us sleeps or yields at the two hook points between the critical sections"))]));
     vc::set_hook(None);
     ctx.finish(
-        "(a) controlled schedules: a turnstile at the yield hook (between the lookup and insert critical sections, never inside the lock) serialises 2 and 3 concurrent requests (thorough: also 4, every 7th of the 2520 orders); every order of their lookup/insert sections (6 and 90) x key patterns (same / different sizes) x cache states (empty, one below capacity, full, requested size already cached, half full) x optional burst of 64 other sizes between a lookup and its insert (evicts in between); after EVERY critical section the snapshot taken under the cache's own lock must satisfy |map| = |FIFO| <= capacity, same key set, no duplicate, plan stored under key k is generate(k), and must equal a sequential FIFO cache model (keys and order); hit/miss of every request must match the model; every returned encoder must equal the uncached single-thread encoder incl. repair packets at 5 ESIs. (b) stress: 16 threads x N requests over 8/70/300 sizes with injected delays at the hook points, a sampler thread and every 16th request checking the invariant, every returned encoder checked. non-trivial = controlled schedule in which at least two requests were between lookup and insert at the same time; distinct by (order, sizes, cache state, burst)",
+        "(a) controlled schedules: a turnstile at the yield hook (between the lookup and insert critical sections, never inside the lock) serialises 2 and 3 concurrent requests (thorough: also 4, every 7th of the 2520 orders); every order of their lookup/insert sections (6 and 90) x key patterns (same / different sizes) x cache states (empty, one below capacity, full, requested size already cached, half full) x optional burst of 64 other sizes between a lookup and its insert (evicts in between); after EVERY critical section the snapshot taken under the cache's own lock must satisfy |map| = |FIFO| <= capacity, same key set, no duplicate, plan stored under key k is generate(k), and must equal a sequential FIFO cache model (keys and order); hit/miss of every request must match the model; every returned encoder must equal the uncached single-thread encoder incl. repair packets at 5 ESIs. (c) two very large block sizes (34 000 and 56 403 symbols) requested sequentially, each followed by 70 other sizes, with the invariant checked after every request. (b) stress: 16 threads x N requests over 8/70/300 sizes with injected delays at the hook points, a sampler thread and every 16th request checking the invariant, every returned encoder checked. non-trivial = controlled schedule in which at least two requests were between lookup and insert at the same time; distinct by (order, sizes, cache state, burst)",
         &["controlled enumeration covers <= 3 concurrent requests; larger thread counts are stress-sampled and the OS scheduler decides what is seen", "snapshot/clear/yield hooks are add-only and outside the critical sections (snapshot takes the cache's own mutex)"],
         vec![],
     )
